@@ -106,3 +106,5 @@ ENGINES.append({"name": "astsmt", "path": "vf/astsmt.py", "serves_properties": [
 ENGINES.append({"name": "ndorder", "path": "vf/ndorder.py", "serves_properties": ["C12"], "kind_free_text": "import hook over /repo's source turning set-iteration order into a schedule"})
 for _p in ("C07", "C08", "C09", "C10", "C11", "C12", "C15", "C18"):
     ENGINES[0]["serves_properties"].append(_p)
+
+FIX_COMMITS += ["884e9ec", "8882d88", "e44ca7b"]
